@@ -915,6 +915,24 @@ func init() {
 	handlers["dist"] = distHandler
 	handlers["distx"] = distExactHandler
 	handlers["rdp"] = rdpHandler
+	// a HISTORY of simplifications made one after the other in this process (what one call leaves behind meets the next)
+	handlers["rdpseq"] = func(raw json.RawMessage) map[string]any {
+		var c struct{ Seq []json.RawMessage }
+		must(json.Unmarshal(raw, &c))
+		seq := []any{}
+		for _, one := range c.Seq {
+			o := map[string]any{"ev": "ok"}
+			ev, msg := call(func() { o = rdpHandler(one) })
+			if ev != "ok" {
+				o = map[string]any{"ev": ev, "msg": msg}
+			} else if _, has := o["ev"]; !has {
+				o["ev"] = "ok"
+			}
+			seq = append(seq, o)
+		}
+		return map[string]any{"seq": seq}
+	}
+	tokModes["rdpseq"] = "int"
 	handlers["setorder"] = setOrderHandler
 	tokModes["setorder"] = "int"
 	for _, s := range []string{"orientgrid", "orientx", "locate", "segseggrid", "segseglist", "hull", "dist", "distx", "rdp"} {
